@@ -12,6 +12,7 @@ import WinterProofs.Lemmas.C14Sched
 import WinterProofs.Lemmas.C14Arith
 import WinterProofs.Lemmas.C14Permute
 import WinterProofs.Lemmas.C14Merkle
+import WinterProofs.Lemmas.C14MerkleRun
 import WinterProofs.Lemmas.C14Series
 import WinterProofs.Lemmas.C14Split
 
@@ -112,6 +113,35 @@ theorem transpose_batches_whole_rows (a numSegs threads : Nat) :
     1 ≤ r.2 ∧ r.1 * r.2 = 2 ^ a ∧ 2 ^ a * numSegs / r.1 = r.2 * numSegs :=
   transposeBatches_exact a numSegs threads
 
+/-- index `i` lies in batch number `t` of the list -/
+def InBatch (l : List (Nat × Nat)) (t i : Nat) : Prop := ∃ p, l[t]? = some p ∧ p.1 ≤ i ∧ i < p.1 + p.2
+
+theorem inBatch_disjoint (l : List (Nat × Nat)) (len : Nat) (hp : Partition l len) (t u i : Nat) (hne : t ≠ u)
+    (ht : InBatch l t i) : ¬ InBatch l u i := by
+  rintro ⟨q, hq, hq1, hq2⟩
+  obtain ⟨p, hp', hp1, hp2⟩ := ht
+  have hpw := List.pairwise_iff_getElem.mp hp.disjoint
+  obtain ⟨ht', rfl⟩ := List.getElem?_eq_some_iff.mp hp'
+  obtain ⟨hu', rfl⟩ := List.getElem?_eq_some_iff.mp hq
+  rcases Nat.lt_or_gt_of_ne hne with h | h
+  · have := hpw t u ht' hu' h; omega
+  · have := hpw u t hu' ht' h; omega
+
+/-- (1)+(2) for every chunked routine (`batch_iter_mut!`, `par_chunks_mut` rows, fragments): tasks numbered like the
+    batches of a partition, task `t` writing only inside batch `t` and reading only inputs (indexes outside the
+    slice) and batch `t` — EVERY interleaving computes the state of the sequential order -/
+theorem chunked_tasks_any_schedule {α : Type} (l : List (Nat × Nat)) (len : Nat) (hp : Partition l len)
+    (tasks : List (List (Step α))) (R W : Step α → Nat → Prop)
+    (hfp : ∀ st ∈ tasks.flatten, Footprint st (R st) (W st))
+    (hW : ∀ st ∈ tasks.flatten, ∀ i, W st i → InBatch l st.task i)
+    (hR : ∀ st ∈ tasks.flatten, ∀ i, R st i → len ≤ i ∨ InBatch l st.task i)
+    (sched : List (Step α)) (hs : IsSchedule tasks sched) (s : Nat → α) :
+    runAll sched s = runAll tasks.flatten s := by
+  apply disjoint_writes_any_schedule tasks R W (fun i => len ≤ i) (InBatch l) hfp
+    (fun t u i hne h => inBatch_disjoint l len hp t u i hne h) ?_ hW hR sched hs s
+  rintro t i hi ⟨p, hp', _, hp2⟩
+  have := hp.bounds p (List.mem_of_getElem? hp')
+  omega
 /-- concurrent `permute` (math/src/fft/concurrent.rs: `factor = 1`; prover/src/matrix/segments.rs: `factor = 2`) on
     `2^k` elements, EVERY thread count: the task ranges `[b*bs, (b+1)*bs)` partition `[0, 2^k)` … -/
 theorem permute_ranges_partition (k t f e : Nat) (hf : f = 2 ^ e) :
@@ -182,6 +212,20 @@ theorem merkle_tip (S : Nat) :
 theorem merkle_subtrees_pow (a threads : Nat) : ∃ b, b ≤ a ∧ merkleSubtrees (2 ^ a) threads = 2 ^ b := by
   obtain ⟨c, hc⟩ := nextPow2_isPow threads
   exact ⟨min c a, Nat.min_le_right _ _, by unfold merkleSubtrees; rw [hc, min_two_pow]⟩
+
+/-- concurrent `build_merkle_nodes` on `2^a` first-row nodes (`2^(a+1)` leaves, `a ≤ 64`), EVERY thread count:
+    every interleaving of the first-row loop, then every interleaving of the spawned sub-tree tasks, then the tip
+    leaves in EVERY node exactly what the serial `build_merkle_nodes` leaves there, and that is the Merkle tree over
+    the leaves (`merge` is any function: no property of the hash is used) -/
+theorem merkle_every_schedule_eq_serial {α : Type} (merge : α → α → α) (a threads : Nat) (ha : a ≤ 64)
+    (sched1 sched2 : List (Step α)) (h1 : IsSchedule (merkleFirstRow merge (2 ^ a)) sched1)
+    (h2 : IsSchedule (merkleTasks merge (2 ^ a) (merkleSubtrees (2 ^ a) threads)) sched2) (s0 : Nat → α) :
+    (∀ k, runAll (sched1 ++ (sched2 ++ merkleTipSteps merge (merkleSubtrees (2 ^ a) threads))) s0 k
+        = runAll (merkleSerial merge (2 ^ a)) s0 k) ∧
+      IsTree merge (2 ^ a) s0 (runAll (merkleSerial merge (2 ^ a)) s0) := by
+  obtain ⟨b, hb, hS⟩ := merkle_subtrees_pow a threads
+  rw [hS] at h2 ⊢
+  exact merkle_any_schedule_eq_serial merge a b hb (by omega) sched1 sched2 h1 h2 s0
 
 example : merkleTaskLevels 1024 4 1 = [(640, 128), (320, 64), (160, 32), (80, 16), (40, 8), (20, 4), (10, 2), (5, 1)] ∧
     merkleTip 4 = [3, 2, 1] := by decide
